@@ -831,6 +831,10 @@ class Weaver:
         text = strip_attrs(text, log)
         # R7: `const X: &str` -> `const X: &'static str`
         t2 = re.sub(r'(\bconst\s+\w+\s*:\s*)&str\b', r"\1&'static str", text)
+        # the same elided lifetime inside a compound const type (`[(&str, &str); 12]`)
+        mc = re.match(r'(\s*(?:pub(?:\([a-z]+\))?\s+)?const\s+\w+\s*:)([^=]*)(=)', t2)
+        if mc and '&str' in mc.group(2):
+            t2 = mc.group(1) + re.sub(r"&str\b", "&'static str", mc.group(2)) + t2[mc.end(2):]
         if t2 != text:
             log.append(('R7', "const X: &str => &'static str"))
             text = t2
